@@ -146,6 +146,9 @@ extern int cs_vector_on_cal;
    leaves them), so that the scenario's handles start at 3 + cs_param_fillers:
    0 by default */
 extern int cs_param_fillers;
+/* scalar standards of the recipes are purely real (a 75 ohm load, an
+   attenuator): set before cs_recipe */
+extern int cs_real_scalars;
 extern int cs_make_params(vnacal_t *vcp, cs_scenario *sc);
 extern void cs_delete_params(vnacal_t *vcp, cs_scenario *sc);
 
